@@ -173,10 +173,13 @@ private:
       const variable_t &pivot = kv.second;
       Interval res = compute_residual(cst, pivot, env);
       Interval rhs = Interval::top();
+      // whether c * rhs is exactly res (the division did not round)
+      bool is_exact_rhs = false;
       if (!res.is_top()) {
         Interval ic =
             interval_traits::mk_interval<Interval>(c, get_bitwidth(pivot));
         rhs = res / ic;
+        is_exact_rhs = (rhs * ic == res);
       }
 
       if (cst.is_equality()) {
@@ -202,7 +205,9 @@ private:
       } else {
         // cst is a disequation
         Interval old_i = env.at(pivot);
-        Interval new_i = interval_traits::trim_interval(old_i, rhs);
+        // c * pivot != res excludes the value rhs only if c * rhs = res
+        Interval new_i =
+            is_exact_rhs ? interval_traits::trim_interval(old_i, rhs) : old_i;
         if (new_i.is_bottom()) {
           return true;
         }
